@@ -118,6 +118,15 @@ func (p *parser) parseMessage() (ok bool) {
 	p.variableNames = map[string]bool{}
 	p.ellipsisCount = 0
 
+	tokenFirst := p.peek()
+	defer func() {
+		if r := recover(); r != nil {
+			// The message was refused by the abstract syntax tree
+			p.errorf(tokenFirst, "%v", r)
+			ok = false
+		}
+	}()
+
 	var (
 		stream    int
 		function  int
